@@ -32,6 +32,10 @@ def run(ctx):
     ctx.each(optalg.evaluation_pipeline, ctx, repo, "R15h")
     ctx.each(optalg.proposal_application, ctx, repo, "R15i")
     ctx.each(optalg.calibration_objective, ctx, repo, "R15j")
+    # "adjusted values all lie within the bounds given": what constrain_sum_bounded returns is compared with / clipped to the bounds
+    from .c14 import r14a
+
+    ctx.each(r14a, ctx, repo)
 
 
 def _chain_txt(e):
